@@ -13,6 +13,8 @@ mod p07;
 mod p09;
 mod strspec;
 mod specexec;
+mod specschema;
+mod schemagen;
 mod p03;
 mod p10;
 mod p11;
